@@ -39,6 +39,9 @@ ASSUMPTIONS = [
 @st.composite
 def nc_case(draw):
     c = draw(gen.normalised_counts_case(min_patches=2, max_patches=7, exact=True))
+    if draw(st.integers(0, 39)) == 0:
+        # hundreds of patches, in compact form (see gen.expand_counts)
+        c = {"binning": c["binning"], "npatch": draw(st.sampled_from([127, 128, 129, 181, 182, 183, 255, 256, 257, 300])), "auto": c["auto"], "expand": draw(st.integers(0, 2**32 - 1))}
     return {"kind": draw(st.sampled_from(["PatchedCounts", "PatchedSumWeights", "NormalisedCounts"])), "c": c, "prior": draw(st.sampled_from([None, None, "get_array", "sample"])), "via": draw(st.sampled_from(gen.PROVENANCE))}
 
 
@@ -55,11 +58,11 @@ def _offdiag_nonzero(counts):
 
 
 def run_nc(case):
-    kind, c = case["kind"], case["c"]
+    kind, c = case["kind"], gen.expand_counts(case["c"])
     npatch = c["npatch"]
     counts = np.array(c["counts"], float)
     nontrivial = npatch >= 3 and _offdiag_nonzero(counts) and _distinct_rows(counts)
-    ck = Checker(nontrivial, classes=[f"kind:{kind}", "auto" if c["auto"] else "cross", f"patches:{npatch}"])
+    ck = Checker(nontrivial, classes=[f"kind:{kind}", "auto" if c["auto"] else "cross", f"patches:{npatch if npatch < 100 else '>=127'}"])
     if kind == "PatchedCounts":
         obj = gen.build_counts(c)
         ref = lambda k: osx.loo_counts_total(counts, k)  # noqa
